@@ -273,7 +273,11 @@ class McmcSim:
             self._coin_plan = ent["coin"]
         else:
             pol = self.policy["ops"]
-            if pol["kind"] == "single":
+            if pol["kind"] == "class":
+                # mostly one operator class (e.g. the GMRF block update), the others now and then
+                hits = [i for i, o in enumerate(self.mcmc._operators) if pol["name"] in type(o).__name__]
+                idx = self.rs.choice(hits) if hits and self.rs.bernoulli(0.8) else self.rs.weighted(list(range(len(w))), w)
+            elif pol["kind"] == "single":
                 idx = pol["index"] % len(w)
             elif pol["kind"] == "roundrobin":
                 idx = t % len(w)
@@ -856,6 +860,8 @@ CLI_SCENES = [
     ("mcmc", ["--clock", "strict", "--coalescent", "constant"]),
     ("mcmc", ["--clock", "strict", "--coalescent", "skygrid", "--grid", "5", "--cutoff", "10", "-m", "HKY", "-C", "4"]),
     ("mcmc", ["--clock", "strict", "--coalescent", "skyride"]),
+    ("mcmc", ["--clock", "strict", "--coalescent", "skygrid", "--grid", "8", "--cutoff", "12"]),
+    ("mcmc", ["--clock", "strict", "--coalescent", "piecewise-constant", "--grid", "4", "--cutoff", "8"]),
     ("mcmc", ["-m", "GTR"]),
     ("mcmc", ["--clock", "strict", "--coalescent", "exponential", "--heights", "shift"]),
     ("hmc", ["--clock", "strict", "--coalescent", "constant", "--steps", "3", "--step_size", "0.002"]),
@@ -897,6 +903,8 @@ def generate(seed, index, tier):
         ops_policy["index"] = k.randint(0, 7)
     if pol == "bursts":
         ops_policy["len"] = k.randint(2, 8)
+    if recipe["kind"] == "cli" and "skygrid" in recipe["args"] and k.bernoulli(0.6):
+        ops_policy = {"kind": "class", "name": "GMRF"}
     coin = k.choice([[4, 4, 1, 1], [4, 4, 1, 1], [1, 8, 0, 1], [0, 0, 1, 0], [0, 0, 0, 1], [1, 0, 0, 0], [2, 6, 1, 3]])
     return {"recipe": recipe, "seed": run_seed(seed, PROP, index), "transitions": transitions, "policy": {"ops": ops_policy, "coin": coin},
             "observe": k.bernoulli(0.5), "scene_class": scene_class(recipe)}
